@@ -18,7 +18,7 @@ RULE = ("constructor: URL strings whose user, password, path segments, query par
         "with_path/with_name/'/'/joinpath/with_fragment/with_query(str and mapping) (kind 1); distinct = distinct request")
 
 TEXTS = gens.TEXTS + ["a%2Fb", "%2F", "%25", "100%", "a+b c", "k&v=w;x", "é/ü", "\U0001f600", "#?[]@:!$&'()*+,;=", "a\\b", "\x7f", "x%zzy", "%C3%A9",
-                      "\U0010ffff", "a=b=c", "a&b", "+", "%2B", ";", "a;b", "a b+c"]
+                      "\U0010ffff", "a=b=c", "a&b", "+", "%2B", ";", "a;b", "a b+c"] + gens.alias_escapes()[::3]
 
 
 def build(**kw):
@@ -30,7 +30,7 @@ def build(**kw):
 def run(ctx):
     rng = ctx.rng
     alpha = [c for c in gens.SQ_ALPHABET if c not in ("/",)] + ["=", ";", "%2F", "%2b", "%3D", "%26", "%3b", "%41", "%c3%a9"]
-    comps = [""] + alpha + [a + b for a in alpha for b in alpha]
+    comps = [""] + alpha + [a + b for a in alpha for b in alpha] + gens.alias_escapes()
     if not ctx.quick:
         comps += [a + b + c for a in alpha[:14] for b in alpha[:14] for c in alpha[:14]]
     urls = []
